@@ -740,6 +740,10 @@ void lib_svt_encoder_send_error_exit(
 
 static void svt_enc_handle_stop_threads(EbEncHandle *enc_handle_ptr)
 {
+    // The handle constructor may have failed before the sequence control set existed: no thread was created then
+    if (!enc_handle_ptr->scs_instance_array || !enc_handle_ptr->scs_instance_array[0] ||
+        !enc_handle_ptr->scs_instance_array[0]->scs_ptr)
+        return;
     SequenceControlSet*  control_set_ptr = enc_handle_ptr->scs_instance_array[0]->scs_ptr;
     // Resource Coordination
     EB_DESTROY_THREAD(enc_handle_ptr->resource_coordination_thread_handle);
